@@ -2,6 +2,7 @@ package util
 
 import (
 	"github.com/pkg/errors"
+	"io"
 	"sync"
 	"time"
 )
@@ -31,6 +32,7 @@ type InQueue struct {
 	queueHasData   bool       // Boolean specifiying if there's any data in the queue
 	queueNotifiers []func()   // A list of waiters to notify when the queue has data
 	readDeadline   time.Time
+	closed         bool // Set by Close: no more data will arrive, blocked readers are released
 }
 
 // HasData returns true if there's any data waiting in the queue to be read
@@ -70,6 +72,10 @@ func (q *InQueue) waitNonEmtpyQueue() error {
 		q.queueMutex.Unlock()
 		return nil
 	}
+	if q.closed {
+		q.queueMutex.Unlock()
+		return io.EOF
+	}
 
 	wait := make(chan struct{}, 1) // buffered: the notifier must not block if this waiter has already given up (deadline)
 	q.queueNotifiers = append(q.queueNotifiers, func() {
@@ -94,6 +100,24 @@ func (q *InQueue) waitNonEmtpyQueue() error {
 	}
 }
 
+// Close releases every reader that is blocked waiting for data (it gets io.EOF) and makes
+// later reads of an empty queue return io.EOF at once. Data already received can still be read.
+func (q *InQueue) Close() {
+	q.queueMutex.Lock()
+	q.closed = true
+	for _, f := range q.queueNotifiers {
+		f()
+	}
+	q.queueNotifiers = q.queueNotifiers[0:0]
+	q.queueMutex.Unlock()
+}
+
+func (q *InQueue) isClosed() bool {
+	q.queueMutex.Lock()
+	defer q.queueMutex.Unlock()
+	return q.closed
+}
+
 func (q *InQueue) Read(p []byte) (n int, err error) {
 	// Block until data is available
 	err = q.waitNonEmtpyQueue()
@@ -103,6 +127,11 @@ func (q *InQueue) Read(p []byte) (n int, err error) {
 
 	q.mutex.Lock()
 	defer q.mutex.Unlock()
+
+	if len(q.in) == 0 && q.isClosed() {
+		// Woken up by Close, not by data
+		return 0, io.EOF
+	}
 
 	copied := copy(p, q.in)
 	q.in = q.in[copied:]
@@ -205,6 +234,7 @@ type OutQueue struct {
 	queueHasData   bool         // Boolean specifiying if the queue is full or not
 	queueNotifiers []func()     // A list of waiters to notify when the queue is emptied
 	writeDeadline  time.Time
+	closed         bool // Set by Close: nothing will be acknowledged any more, blocked writers are released
 }
 
 // NextChunk will return the first non-acked chunk from the queue. It will return nil if the queue is empty
@@ -283,6 +313,11 @@ func (q *OutQueue) waitEmptyQueue() error {
 	}
 	q.queueMutex.Lock()
 
+	if q.closed {
+		q.queueMutex.Unlock()
+		return io.ErrClosedPipe
+	}
+
 	// If queue is not full, return straight away
 	if !q.queueHasData {
 		q.queueMutex.Unlock()
@@ -300,16 +335,34 @@ func (q *OutQueue) waitEmptyQueue() error {
 		select {
 		case <-wait:
 		}
-		return nil
 	} else {
 		// Wait for the notification that the queue has emptied
 		select {
 		case <-time.After(q.writeDeadline.Sub(time.Now())):
 			return ErrDeadlineExceeded
 		case <-wait:
-			return nil
 		}
 	}
+
+	q.queueMutex.Lock()
+	defer q.queueMutex.Unlock()
+	if q.closed {
+		// Woken up by Close: what is still queued will not be delivered
+		return io.ErrClosedPipe
+	}
+	return nil
+}
+
+// Close releases every writer that is blocked waiting for its data to be acknowledged (it gets
+// io.ErrClosedPipe) and makes later writes fail at once.
+func (q *OutQueue) Close() {
+	q.queueMutex.Lock()
+	q.closed = true
+	for _, f := range q.queueNotifiers {
+		f()
+	}
+	q.queueNotifiers = q.queueNotifiers[0:0]
+	q.queueMutex.Unlock()
 }
 
 func (q *OutQueue) addChunk(data []byte) error {
